@@ -1029,7 +1029,20 @@ func Execute(t *testing.T, prop string, plan *Plan) (res *runner.Result) {
 	e.now = e.cfg.Start
 	for i := 0; i < e.cfg.NSeries; i++ {
 		if e.cfg.RichLabels {
-			e.lsets = append(e.lsets, richLabels(i))
+			l := richLabels(i)
+			if e.cfg.LongLabels && i%3 == 0 {
+				// more than 1 KiB of labels, the long part in the middle and, for some, spread over several labels
+				b := labels.NewBuilder(l)
+				if i%2 == 0 {
+					b.Set("pad", strings.Repeat(fmt.Sprintf("%02d", i), 600))
+				} else {
+					for k := 0; k < 6; k++ {
+						b.Set(fmt.Sprintf("pad%d", k), strings.Repeat(fmt.Sprintf("%d", (i+k)%10), 200))
+					}
+				}
+				l = b.Labels()
+			}
+			e.lsets = append(e.lsets, l)
 		} else {
 			e.lsets = append(e.lsets, seriesLabels(i))
 		}
